@@ -46,6 +46,20 @@ type fctx struct {
 	name      string
 	n         int
 	everyStmt bool
+	lockTrace bool
+}
+
+func isLockCall(s ast.Stmt) bool {
+	es, ok := s.(*ast.ExprStmt)
+	if !ok {
+		return false
+	}
+	c, ok := es.X.(*ast.CallExpr)
+	if !ok || len(c.Args) != 0 {
+		return false
+	}
+	sel, ok := c.Fun.(*ast.SelectorExpr)
+	return ok && sel.Sel.Name == "Lock"
 }
 
 func (c *fctx) site(kind string) string {
@@ -204,6 +218,11 @@ func (c *fctx) stmts(in []ast.Stmt) []ast.Stmt {
 			continue
 		case k != "":
 			out = append(out, pointStmt(c.site(k)))
+		case c.lockTrace && isLockCall(s):
+			// Connection: the moment a locked section begins is the linearisation point of what it does
+			out = append(out, s, &ast.ExprStmt{X: &ast.CallExpr{Fun: ast.NewIdent("verifLock"), Args: []ast.Expr{
+				&ast.BasicLit{Kind: token.STRING, Value: fmt.Sprintf("%q", c.name)}}}})
+			continue
 		case c.everyStmt:
 			// the shared tables: a yield point before every statement, also inside their (channel-based) lock regions
 			if _, isDecl := s.(*ast.DeclStmt); !isDecl {
@@ -375,6 +394,9 @@ func main() {
 			c := &fctx{name: recvName(fd) + fd.Name.Name}
 			if (recvName(fd) == "callContainer." && fd.Name.Name != "NewCall") || recvName(fd) == "protocolHandler." {
 				c.everyStmt = true
+			}
+			if recvName(fd) == "Connection." {
+				c.lockTrace = true
 			}
 			fd.Body.List = c.stmts(fd.Body.List)
 		}
